@@ -243,10 +243,39 @@ pub fn non_growing(p: &Program) -> bool {
     p.impls.iter().all(|im| im.wcs.iter().all(|w| w.args.iter().all(|a| matches!(a, Ty::Param(_)) || !a.has_param())))
 }
 
-/// no impl head applies a constructor to an impl parameter: answers of existential goals cannot grow
-/// beyond the types written in the program and the goal
+/// Answers of existential goals cannot grow without bound: there is no impl whose header applies a
+/// constructor to an impl parameter ("generative") and whose where-clauses lead back — through the
+/// where-clauses of other impls — to the trait it implements.
 pub fn finite_answers(p: &Program) -> bool {
-    p.impls.iter().all(|im| im.head.args.iter().all(|a| matches!(a, Ty::Param(_)) || !a.has_param()))
+    let nt = p.traits.len();
+    // trait dependency graph through impl where-clauses
+    let mut succ: Vec<Vec<usize>> = vec![vec![]; nt];
+    for im in &p.impls {
+        for w in &im.wcs {
+            succ[im.head.tr].push(w.tr);
+        }
+    }
+    let reaches = |from: usize, to: usize| -> bool {
+        let mut stack = vec![from];
+        let mut vis = vec![false; nt];
+        while let Some(n) = stack.pop() {
+            if n == to {
+                return true;
+            }
+            if !vis[n] {
+                vis[n] = true;
+                stack.extend(succ[n].iter().copied());
+            }
+        }
+        false
+    };
+    for im in &p.impls {
+        let generative = im.head.args.iter().any(|a| !matches!(a, Ty::Param(_)) && a.has_param());
+        if generative && im.wcs.iter().any(|w| reaches(w.tr, im.head.tr)) {
+            return false;
+        }
+    }
+    true
 }
 
 /// no field type nests a type parameter inside two constructor applications (polymorphic recursion
@@ -580,4 +609,71 @@ pub fn gen_dense_goal(t: &mut Tape, p: &Program) -> Goal {
         })
         .collect();
     Goal { prefix: vec![], body }
+}
+
+// ---------------------------------------------------------------- shape: several constraints on one unknown
+
+/// Facts over a few ground and one-level generic types, generic impls `impl<T> Tr for S<T> where T: Tr2`,
+/// and "conjunctive" impls `impl<X> Both for W<X> where X: Ta, X: Tb(, X: Tc)` whose where-clauses all
+/// constrain the same parameter: solving them needs partial information from one constraint (definite
+/// guidance such as `X := S<?>`) to be combined with the others, in whatever order they are written.
+pub fn gen_conj_program(t: &mut Tape) -> Program {
+    let mut p = Program::default();
+    for name in ["A", "B", "C"].iter().take(2 + t.choose(2)) {
+        p.ctors.push(new_ctor(name, 0));
+    }
+    let n0 = p.ctors.len();
+    p.ctors.push(new_ctor("S", 1));
+    p.ctors.push(new_ctor("W", 1));
+    let (s, w) = (n0, n0 + 1);
+    let nt = 3 + t.choose(3);
+    for name in TRAITS.iter().take(nt) {
+        p.traits.push(new_trait(name, 0, TraitKind::Inductive));
+    }
+    let nullary = |t: &mut Tape| Ty::Adt(t.choose(n0), vec![]);
+    let nf = 3 + t.choose(6);
+    for _ in 0..nf {
+        let tr = t.choose(nt);
+        let ty = match t.choose(4) {
+            0 | 1 => nullary(t),
+            2 => Ty::Adt(s, vec![nullary(t)]),
+            _ => Ty::Adt(w, vec![nullary(t)]),
+        };
+        p.impls.push(ImplDef { nparams: 0, head: TRef { tr, args: vec![ty] }, wcs: vec![], positive: true, values: vec![], upstream: false });
+    }
+    let ng = 1 + t.choose(3);
+    for _ in 0..ng {
+        let tr = t.choose(nt);
+        let c = if t.chance(70) { s } else { w };
+        let nw = t.choose(3);
+        let wcs = (0..nw).map(|_| TRef { tr: t.choose(nt), args: vec![Ty::Param(0)] }).collect();
+        p.impls.push(ImplDef { nparams: 1, head: TRef { tr, args: vec![Ty::Adt(c, vec![Ty::Param(0)])] }, wcs, positive: true, values: vec![], upstream: false });
+    }
+    // conjunctive impls
+    let nc = 1 + t.choose(2);
+    for _ in 0..nc {
+        let tr = t.choose(nt);
+        let nw = 2 + t.choose(2);
+        let wcs: Vec<TRef> = (0..nw).map(|_| TRef { tr: t.choose(nt), args: vec![if t.chance(85) { Ty::Param(0) } else { Ty::Adt(s, vec![Ty::Param(0)]) }] }).collect();
+        let head_ty = if t.chance(75) { Ty::Adt(w, vec![Ty::Param(0)]) } else { Ty::Adt(s, vec![Ty::Param(0)]) };
+        p.impls.push(ImplDef { nparams: 1, head: TRef { tr, args: vec![head_ty] }, wcs, positive: true, values: vec![], upstream: false });
+    }
+    t.shuffle(&mut p.impls);
+    p
+}
+
+pub fn gen_conj_goal(t: &mut Tape, p: &Program) -> Goal {
+    let nt = p.traits.len();
+    let unary: Vec<usize> = (0..p.ctors.len()).filter(|c| p.ctors[*c].arity == 1).collect();
+    let x = Ty::QVar(0);
+    let atom = |t: &mut Tape| -> TRef {
+        let ty = match t.choose(4) {
+            0 | 1 => Ty::Adt(unary[t.choose(unary.len())], vec![x.clone()]),
+            2 => x.clone(),
+            _ => Ty::Adt(unary[t.choose(unary.len())], vec![Ty::Adt(unary[t.choose(unary.len())], vec![x.clone()])]),
+        };
+        TRef { tr: t.choose(nt), args: vec![ty] }
+    };
+    let n = 1 + t.choose(2);
+    Goal { prefix: vec![Prefix::Exists(vec![0])], body: (0..n).map(|_| Lit::Holds(atom(t))).collect() }
 }
